@@ -1219,7 +1219,7 @@ pub fn main(opts: &Opts) -> ! {
     let mut extra = serde_json::Map::new();
     extra.insert("cases".into(), json!(done.len()));
     extra.insert("exhaustive_cases".into(), json!(n_exh));
-    extra.insert("exhaustive".into(), json!("dvbs2: 21 valid + 10 invalid rate/frame combinations; ccsds: 9 valid + 5 invalid; ccsds-c2; encode input lengths 0..=3k+2 for one code with and without puncturing"));
+    extra.insert("exhaustive_part".into(), json!("dvbs2: 21 valid + 10 invalid rate/frame combinations; ccsds: 9 valid + 5 invalid; ccsds-c2; encode input lengths 0..=3k+2 for one code with and without puncturing"));
     extra.insert("subcommands".into(), a.counters.group("subcommand"));
     extra.insert("faults_fired".into(), a.counters.group("faults_fired"));
     extra.insert("skipped".into(), a.counters.group("skipped"));
